@@ -159,10 +159,13 @@ Proof.
                               k_st k_srcptr k_dstptr k_sigma k_srcpaths k_dstpaths k_srcneed k_dstneed k_srcout k_dstout k_srclist k_dstlist].
     set (f := kload l _).
     assert (F : forall w', MapCheckPrims.k_st w' = st -> kload l w' = f) by (intros w' <-; destruct l; reflexivity).
-    repeat rewrite F by reflexivity.
-    destruct (m_get (s_rmap st) (f_name f)) as [d1|]; [destruct (pmap_get spa (f_name f)) as [ps1|]|];
-      (destruct (m_get (s_wmap st) (f_name f)) as [d2|]; [destruct (pmap_get dpa d2) as [ps2|]|]);
-      rewrite IH; unfold with_needs, set_srcneed, set_dstneed, upd_k; cbn; reflexivity.
+    repeat (repeat rewrite F by reflexivity;
+            match goal with
+            | |- context [m_get ?m ?k] => destruct (m_get m k)
+            | |- context [pmap_get ?m ?k] => destruct (pmap_get m k)
+            end; cbv beta iota delta [andb orb negb]).
+    all: repeat rewrite F by reflexivity; rewrite IH; unfold with_needs, set_srcneed, set_dstneed, upd_k; cbn;
+      repeat rewrite F by reflexivity; reflexivity.
 Qed.
 
 Theorem nilCheckRead_is_model : forall (w : kworld),
@@ -170,10 +173,10 @@ Theorem nilCheckRead_is_model : forall (w : kworld),
   = (Returned tt, with_needs (fold_left (need_step_src (k_st w) (k_srcpaths w)) (s_src (k_st w)) [])
                              (fold_left (need_step_dst (k_st w) (k_dstpaths w)) (s_src (k_st w)) []) w).
 Proof.
-  intros w. unfold nilCheckRead. rewrite need_loop_is_model.
-  replace (src_locs (set_srcneed [] (set_dstneed [] w))) with (src_locs w) by (destruct w; reflexivity).
-  assert (E : forall l, kload l (set_srcneed [] (set_dstneed [] w)) = kload l w) by (intros; destruct w, l; reflexivity).
-  rewrite (map_ext _ _ E), map_src_locs. destruct w; reflexivity.
+  intros w. destruct w as [st sp dp sg spa dpa sn dn so do' sl dl]. unfold nilCheckRead.
+  cbv beta iota zeta delta [set_srcneed set_dstneed upd_k k_st k_srcptr k_dstptr k_sigma k_srcpaths k_dstpaths k_srcneed k_dstneed
+                            k_srcout k_dstout k_srclist k_dstlist].
+  rewrite need_loop_is_model, map_src_locs. reflexivity.
 Qed.
 
 (* ... which is the model's need predicate on every field name (Model/Mapper.v [analyse]: src_need / dst_need) *)
